@@ -95,6 +95,12 @@ def check_storage(db, rep, units=None, floors=True):
         if g.get('const') or g.get('constexpr'):
             rep.ok('E.static')
             continue
+        t0 = elem_type(g.get('t', ''))
+        if t0.startswith(('std::mutex', 'std::recursive_mutex', 'std::once_flag', 'std::atomic<', 'std::atomic_flag', 'std::shared_mutex')):
+            # synchronisation primitives are shared by design; what they protect is judged by the other rules
+            rep.ok('E.static')
+            rep.notes.append('synchronisation object %s of type %s accepted' % (site, t0))
+            continue
         n_mut += 1
         rep.fail('E.static', site, where, 'static storage is top-level const (initialised once) or thread_local',
                  'mutable object of type %s shared by all threads' % g.get('t'), fn)
